@@ -417,8 +417,10 @@ func init() {
 			// every goroutine's YAML entry holds exactly its own masked document
 			if b, err := os.ReadFile(filepath.Join(defdir, "zz_verif_sched_test.snap")); err == nil {
 				for g := 0; g < ng; g++ {
+					// (the placeholder may be written plain or quoted: both are the string `<Any value>`)
 					want := fmt.Sprintf("g: %d\nsecret: <Any value>\nlist:\n  - %s\n", g, strings.Repeat("y", 40*g+1))
-					if !strings.Contains(string(b), want) {
+					wantQ := fmt.Sprintf("g: %d\nsecret: \"<Any value>\"\nlist:\n  - %s\n", g, strings.Repeat("y", 40*g+1))
+					if !strings.Contains(string(b), want) && !strings.Contains(string(b), wantQ) {
 						bad++
 					}
 				}
